@@ -155,49 +155,29 @@ def _run(chk, tier, rng, binary, binary2, gdir, binary3, bt, mpi):
         f.write(c12_embed.GEN_CFG)
     jobs.append(("PartitionGenEmbed", cfg, ("embed",)))
     assigns, genmeshes, twolevel, manygen, embmeshes = {}, [], {}, {}, []
-    with cf.ThreadPoolExecutor(max_workers=8) as ex:
-        futs = [(ex.submit(vlib.tlc, j[0], j[1], timeout=900, xmx="2g"), j) for j in jobs]
-        for fu, (mod, cfg, what) in futs:
-            r = fu.result()
-            chk.add_tlc(r, "%s %s" % (mod, what))
-            if r.violation:
-                chk.model_violation(r, "%s invariant %s" % (mod, what))
-                continue
-            if what[0] == "assign":
-                assigns[what[1]] = [p["ranks"] for p in r.printed]
-            elif what[0] == "twolevel":
-                twolevel[what[1]] = [p["parents"] for p in r.printed]
-            elif what[0] == "many":
-                manygen[what[1]] = r.printed
-            elif what[0] == "embed":
-                embmeshes = r.printed
-            else:
-                for i, c in enumerate(r.printed):
-                    genmeshes.append(("gen:%s" % what[3], what[1], what[2], c["src"], 2 if what[3] == "pair" else 3, i))
-    chk.extra["assignments_enumerated"] = {str(n): len(a) for n, a in assigns.items()}
-    chk.extra["two_level_partitions_enumerated"] = {str(n): len(a) for n, a in twolevel.items()}
-    vlib.log("[C12] generation done %.1fs" % (time.time() - chk.t0))
-
-    # ---- 1a. MPI route (PartiDomainControl on 2..16 processes): runs in its own thread next to the serial stages ----
-    bt.join()
-    if "err" in mpi:
-        raise mpi["err"]
+    # the MPI route (PartiDomainControl on 2..16 processes) runs in its own thread next to everything else; it starts as soon as the
+    # assignments it prescribes as owner maps (4 and 6 cells) are enumerated
     rec = _Recorder(chk)
     pres = {}
 
     def pdc_phase():
         try:
+            bt.join()
+            if "err" in mpi:
+                raise mpi["err"]
             pdir = os.path.join(gdir, "pdc")
             os.makedirs(pdir, exist_ok=True)
-            pres["n"] = c12_pdc.run_phase(rec, assigns, random.Random(vlib.seed() + 7919), pdir, mpi["bin"])
+            pres["n"] = c12_pdc.run_phase(rec, {n: list(a) for n, a in assigns.items() if n in (4, 6)}, random.Random(vlib.seed() + 7919), pdir, mpi["bin"])
         except BaseException as e:          # re-raised in the main thread
             pres["err"] = e
     pthread = threading.Thread(target=pdc_phase)
-    pthread.start()
     try:
-        _run_serial(chk, tier, rng, binary, binary2, gdir, binary3, files, thorough, assigns, genmeshes, twolevel, manygen, manymeshes, embmeshes)
+        _run_stages(chk, tier, rng, binary, binary2, gdir, binary3, files, thorough, jobs, manymeshes, assigns, genmeshes, twolevel, manygen, embmeshes, pthread)
     finally:
-        pthread.join()
+        if not pthread.is_alive() and "n" not in pres and "err" not in pres:
+            pres["err"] = vlib.MachineryError("the MPI route was not started")      # only after an earlier failure, which is what gets reported
+        elif pthread.ident is not None:
+            pthread.join()
     if "err" in pres:
         raise pres["err"]
     rec.replay_into(chk)
@@ -210,6 +190,36 @@ def _run(chk, tier, rng, binary, binary2, gdir, binary3, bt, mpi):
         "serial routes: extract_patch is called for every rank on one base node (no communicator), the multi-layer halo splitting is reproduced "
         "serially (same calls in the same order as _split_basemesh_halos); the MPI route runs the unchanged control layer under OpenMPI "
         "(oversubscribed ranks on one machine)"]
+
+
+def _run_stages(chk, tier, rng, binary, binary2, gdir, binary3, files, thorough, jobs, manymeshes, assigns, genmeshes, twolevel, manygen, embmeshes, pthread):
+    with cf.ThreadPoolExecutor(max_workers=8) as ex:
+        futs = [(ex.submit(vlib.tlc, j[0], j[1], timeout=900, xmx="2g"), j) for j in jobs]
+        for fu, (mod, cfg, what) in futs:
+            r = fu.result()
+            chk.add_tlc(r, "%s %s" % (mod, what))
+            if r.violation:
+                chk.model_violation(r, "%s invariant %s" % (mod, what))
+                continue
+            if what[0] == "assign":
+                assigns[what[1]] = [p["ranks"] for p in r.printed]
+                if what[1] == 6 and pthread.ident is None:
+                    pthread.start()
+            elif what[0] == "twolevel":
+                twolevel[what[1]] = [p["parents"] for p in r.printed]
+            elif what[0] == "many":
+                manygen[what[1]] = r.printed
+            elif what[0] == "embed":
+                embmeshes.extend(r.printed)
+            else:
+                for i, c in enumerate(r.printed):
+                    genmeshes.append(("gen:%s" % what[3], what[1], what[2], c["src"], 2 if what[3] == "pair" else 3, i))
+    chk.extra["assignments_enumerated"] = {str(n): len(a) for n, a in assigns.items()}
+    chk.extra["two_level_partitions_enumerated"] = {str(n): len(a) for n, a in twolevel.items()}
+    if pthread.ident is None:
+        pthread.start()
+    vlib.log("[C12] generation done %.1fs" % (time.time() - chk.t0))
+    _run_serial(chk, tier, rng, binary, binary2, gdir, binary3, files, thorough, assigns, genmeshes, twolevel, manygen, manymeshes, embmeshes)
 
 
 def _run_serial(chk, tier, rng, binary, binary2, gdir, binary3, files, thorough, assigns, genmeshes, twolevel, manygen, manymeshes, embmeshes):
